@@ -25,6 +25,7 @@ mod inject;
 mod tenantstore;
 mod tenantapi;
 mod rbac;
+mod reload;
 
 fn main() {
     let args: Vec<String> = std::env::args().collect();
@@ -67,6 +68,7 @@ fn main() {
         "tenantstore-replay" => tenantstore::replay(rest),
         "tenantapi-replay" => tenantapi::replay(rest),
         "rbac-replay" => rbac::replay(rest),
+        "reload-replay" => reload::replay(rest),
         "for-expand" => misc::for_expand(rest),
         "event-file" => misc::event_file(rest),
         other => {
